@@ -19,6 +19,8 @@ structure Block where
   dt : Int
   votes : List App.Vote
   txs : List Tx
+  /-- double-sign evidence delivered with the block -/
+  evid : List App.Evid := []
   deriving Repr, Inhabited
 
 inductive TxR where
@@ -76,15 +78,18 @@ def runTxs (env : Env) : List Tx â†’ App â†’ List (Signer Ã— Nat) â†’ List TxR â
     let r := runTx env s incs tx
     runTxs env rest r.2.1 r.2.2 (acc ++ [r.1])
 
-/-- the part of a block before x/staking's EndBlocker: BeginBlockers (slashing, poa), then the transactions -/
+/-- the part of a block before x/staking's EndBlocker: BeginBlockers (slashing, evidence, poa), then the transactions -/
 def beforeEnd (env : Env) (s : App) (b : Block) : Except Halt (List TxR Ã— App) :=
   let s := { s with height := s.height + 1, time := s.time + b.dt }
   match slashingBegin b.votes s with
   | .error h => .error h
   | .ok s =>
-    match poaBegin env.lim s with
+    match evidenceBegin b.evid s with
     | .error h => .error h
-    | .ok s => .ok (runTxs env b.txs s [] [])
+    | .ok s =>
+      match poaBegin env.lim s with
+      | .error h => .error h
+      | .ok s => .ok (runTxs env b.txs s [] [])
 
 /-- one block: BeginBlockers (slashing, poa), transactions, EndBlocker (staking) -/
 def block (env : Env) (s : App) (b : Block) : Except Halt (BlockOut Ã— App) :=
